@@ -152,7 +152,7 @@ pub fn eval(case: &J) -> Outcome {
                 else if sig != sig2 { let dd = sig.iter().zip(sig2.iter()).find(|(a, b)| a != b).unwrap();
                     let boolnum = dd.0 .1.contains("bool") && !dd.1 .1.contains("bool");
                     let shape = if sql.contains("log2(") || sql.contains("log10(") { "log-base-inverted" } else if d == "mssql" && sql.contains("ln(") { "ln-written-as-log" } else if sql.contains(" IS TRUE") || sql.contains(" IS FALSE") { "is-bool-cast" } else { shape };
-                    out.fail(&format!("C17/dialect/{d}/readback-types/{}", if crate::s_determ::same_modulo_type_structure(&rel, &r2) { "type-structure" } else if boolnum { "boolean-as-number" } else { shape }), format!("{sql}: column `{}` has type {} but {} after {d} render + read", dd.0 .0, dd.0 .1, dd.1 .1)); }
+                    out.fail(&format!("C17/dialect/{d}/readback-types/{}", if crate::s_determ::same_types_modulo_structure(&rel, &r2) { "type-structure" } else if boolnum { "boolean-as-number" } else { shape }), format!("{sql}: column `{}` has type {} but {} after {d} render + read", dd.0 .0, dd.0 .1, dd.1 .1)); }
                 else { out.tag(&format!("ok={d}")); }
             }
         }
@@ -233,7 +233,7 @@ pub fn eval_dp(case: &J) -> Outcome {
             Some(Ok(Ok(r2))) => {
                 let sig2 = schema_sig(&r2);
                 if sig.iter().map(|x| &x.0).collect::<Vec<_>>() != sig2.iter().map(|x| &x.0).collect::<Vec<_>>() { out.fail(&format!("C17/dialectdp/{d}/readback-names"), format!("DP rewriting of {sql}: columns {:?} come back from {d} as {:?}", sig.iter().map(|x| &x.0).collect::<Vec<_>>(), sig2.iter().map(|x| &x.0).collect::<Vec<_>>())); }
-                else if sig != sig2 { let dd = sig.iter().zip(sig2.iter()).find(|(a, b)| a != b).unwrap(); out.fail(&format!("C17/dialectdp/{d}/readback-types/{}", if crate::s_determ::same_modulo_type_structure(&rel, &r2) { "type-structure" } else { "other" }), format!("DP rewriting of {sql}: column `{}` has type {} but {} after {d} render + read", dd.0 .0, dd.0 .1, dd.1 .1)); }
+                else if sig != sig2 { let dd = sig.iter().zip(sig2.iter()).find(|(a, b)| a != b).unwrap(); out.fail(&format!("C17/dialectdp/{d}/readback-types/{}", if crate::s_determ::same_types_modulo_structure(&rel, &r2) { "type-structure" } else { "other" }), format!("DP rewriting of {sql}: column `{}` has type {} but {} after {d} render + read", dd.0 .0, dd.0 .1, dd.1 .1)); }
                 else { out.tag(&format!("ok={d}")); }
             }
         }
